@@ -339,7 +339,7 @@ theorem onInstallSnap_inv (s : Node) (q : InstallReq) (hs : Inv s) : Inv (s.onIn
   unfold Node.onInstallSnap
   split
   · exact h.ret _ _ hs
-  · extract_lets s1 s2 s3 keep s4 s5 s6 s7
+  · extract_lets s1 s2 s3 s4 s5 s6 s7
     have h1 : Inv s1 := by unfold s1; split; exact h.setRole _ _ (h.setTerm _ _ hs); exact hs
     have h2 : Inv s2 := h.setLeader _ _ (h.setRole _ _ h1)
     have h3 : Inv s3 := h.publishSnapshot _ _ h2
@@ -347,7 +347,7 @@ theorem onInstallSnap_inv (s : Node) (q : InstallReq) (hs : Inv s) : Inv (s.onIn
     · exact h.ret _ _ h2
     · rename_i hgt
       split
-      · exact h.ret _ _ (h.compactLog_inv _ _ h3)
+      · exact h.ret _ _ h2
       · exact h.ret _ _ (h.commitConfig _ (h.changeConfigR _ _ (h.installCommit _ (h.fsmRestore_inv _ (h.clearLog_inv _ h3))
           (install_commit_guard s2 _ hgt))))
 
